@@ -24,7 +24,7 @@ LEVEL = "translation_validation"
 TECHNIQUE = "bounded exhaustive enumeration of lambda bodies x arguments; differential (translation-validation) oracle frozen vs unfrozen on the real interpreter plus a free-variable analysis of the generated AST"
 RULE = ("every body up to the node bound and every feature-product body x every argument is run frozen and unfrozen; non-trivial = freeze succeeds "
         "and the body has >= 2 nodes; distinct by program text")
-ASSUMPTIONS = ["run 4 (eager binding) is not compared for bodies that declare an outer-bound name locally (noulith decides local-vs-outer at run time there)",
+ASSUMPTIONS = ["run 4 (eager binding) is not compared for bodies that declare an outer-bound name inside if / and / or / coalesce / try (whether that declaration runs, and so local-vs-outer, is decided at run time there)",
                "function values are compared as opaque"]
 SHARDED = True
 OPTS = {"fuel": 6000, "depth": 60, "compact": True, "step_ms": 2000, "cap": 16}
@@ -210,6 +210,8 @@ def analyse(e, bound, info):
         fresh = not is_bound(bound, e[1])
         bind(bound, e[1])
         info["declared"].add(e[1])
+        if info.get("cond", 0) > 0:
+            info["cond_declared"].add(e[1])     # whether this declaration runs is decided at run time
         if fresh:
             bound.add("~" + e[1])
         analyse(e[2], bound, info)
@@ -231,9 +233,13 @@ def analyse(e, bound, info):
         return
     if t == "if":
         analyse(e[1], bound, info)
-        analyse(e[2], bound, info)
-        if e[3] is not None:
-            analyse(e[3], bound, info)
+        info["cond"] = info.get("cond", 0) + 1
+        try:
+            analyse(e[2], bound, info)
+            if e[3] is not None:
+                analyse(e[3], bound, info)
+        finally:
+            info["cond"] -= 1
         return
     if t == "while":
         b2 = set(bound)
@@ -276,7 +282,11 @@ def analyse(e, bound, info):
         analyse(e[1], bound, info)
         return
     if t == "try":
-        analyse(e[1], bound, info)
+        info["cond"] = info.get("cond", 0) + 1      # a try body may stop anywhere; the handler runs only if it did
+        try:
+            analyse(e[1], bound, info)
+        finally:
+            info["cond"] -= 1
         b2 = set(bound)
         if e[2] != "_":
             bind(b2, e[2])
@@ -284,7 +294,11 @@ def analyse(e, bound, info):
         return
     if t in ("and", "or", "coalesce"):
         analyse(e[1], bound, info)
-        analyse(e[2], bound, info)
+        info["cond"] = info.get("cond", 0) + 1
+        try:
+            analyse(e[2], bound, info)
+        finally:
+            info["cond"] -= 1
         return
     if t == "lambda":
         # defaults are evaluated before any parameter is bound: they see the enclosing scope only
@@ -334,12 +348,42 @@ def read(n, bound, info):
 
 
 def freeze_must_fail(body):
-    info = {"declared": set(), "reads_outer": set(), "eval": False}
+    info = {"declared": set(), "cond_declared": set(), "reads_outer": set(), "eval": False}
     try:
         analyse(body, {"x"}, info)
         return False, info
     except Fail:
         return True, info
+
+
+def mentions(e, name):
+    if isinstance(e, str):
+        return False
+    if isinstance(e, (tuple, list)):
+        if e and e[0] == "var" and len(e) > 1 and e[1] == name:
+            return True
+        if e and e[0] in ("raw", "raw1") and isinstance(e[1], str):
+            import re as _re
+            if _re.search(r"(?<![A-Za-z0-9_])%s(?![A-Za-z0-9_])" % _re.escape(name), e[1]):
+                return True
+        return any(mentions(x, name) for x in e if isinstance(x, (tuple, list)))
+    return False
+
+
+def calls_lambda_mentioning(e, name):
+    if isinstance(e, (tuple, list)):
+        if e and e[0] == "call" and isinstance(e[1], (tuple, list)) and e[1] and e[1][0] == "lambda" and mentions(e[1][2], name):
+            return True
+        return any(calls_lambda_mentioning(x, name) for x in e if isinstance(x, (tuple, list)))
+    return False
+
+
+def has_iife_self(e):
+    if isinstance(e, (tuple, list)):
+        if e and e[0] == "decl" and calls_lambda_mentioning(e[2], e[1]):
+            return True
+        return any(has_iife_self(x) for x in e if isinstance(x, (tuple, list)))
+    return False
 
 
 def has_eval(e):
@@ -546,7 +590,9 @@ def judge(case, rs):
         return out
     if must_fail:
         return []
-    eager_ok = not (info["declared"] & OUTER_NAMES)
+    # local-vs-outer is decided at run time only where a declaration of an outer-bound name may or may not have run
+    # (inside if / and / or / coalesce / try): straight-line redeclarations are resolved statically by freeze
+    eager_ok = not (info["cond_declared"] & OUTER_NAMES)
     for j in range(len(ARGS)):
         a, b, c = rs[3 * j], rs[3 * j + 1], rs[3 * j + 2]
         oa, ob, oc = outcome(a), outcome(b), outcome(c)
@@ -555,7 +601,10 @@ def judge(case, rs):
                                  "%s -> %s but %s -> %s" % (case.steps[3 * j], short(a), case.steps[3 * j + 1], short(b)), oa, ob))
             break
         if eager_ok and oa != oc:
-            out.append(Violation("C17 family=%s top=%s result=not-eagerly-bound" % (m["fam"], feat),
+            # one construct is singled out in the signature: a lambda called immediately inside the right-hand side of the declaration
+            # of a name it mentions (`z := (\\ -> .. z ..)()`): at run time that z is still the outer one, freeze treats it as the new one
+            iife = " iife-in-own-declaration" if has_iife_self(m["ast"]) else ""
+            out.append(Violation("C17 family=%s top=%s result=not-eagerly-bound%s" % (m["fam"], feat, iife),
                                  "%s -> %s but after reassigning the outer names the frozen function gives %s (%s)" % (case.steps[3 * j], short(a), short(c), case.steps[3 * j + 2]), oa, oc))
             break
     return out
